@@ -986,6 +986,33 @@ func c01PrevTest(c *Ctx, fn *ssa.Function) {
 		res := stripConv(rc.Results[0])
 		if b, isConst := constBool(res); isConst {
 			if !b {
+				// "not controlled by a previous revision" (which refuses a permitted adoption) may
+				// be answered only after every declared previous revision was examined: the return
+				// lies behind a loop over the whole `previous` list and is reached only through the
+				// loop's exhaustion edge — not from inside an iteration (e.g. after the remote phases
+				// of the first revision that has some).
+				o := c.Ob(fn, "return-false", rc.Ret, "false (not controlled by a previous revision) is returned only after every declared previous revision was examined")
+				var whys []string
+				done := false
+				for _, l := range rvRangeLoops(p, fn) {
+					if !isParam(l.Slice, prev) {
+						continue
+					}
+					if ok, why := l.onlyByExhaustion(rc.Ret); ok {
+						o.OK("after the loop over " + p.describe(l.Slice) + " ran to its end")
+						done = true
+						break
+					} else {
+						whys = append(whys, why)
+					}
+				}
+				if !done {
+					if len(whys) == 0 {
+						o.Unknown("no `for … range %s` / index loop over the whole list of previous revisions found before this return", prev.Name())
+					} else {
+						o.Fail("returns false before every previous revision was examined (%s): an object controlled by a later declared previous revision, or by one of its delegated phases, is refused although adoption is permitted", strings.Join(rvDedup(whys), " / "))
+					}
+				}
 				continue
 			}
 			o := c.Ob(fn, "return-true", rc.Ret, c.rule.Statement)
